@@ -5,7 +5,7 @@
 From Coq Require Import List NArith Bool Lia ZifyBool ZifyN.
 From Conductor Require Import Lib.Regex Lib.Str Model.Ident.
 Import ListNotations.
-Open Scope N_scope.
+Local Open Scope N_scope.
 
 Definition ident_char (c : N) : bool :=
   ((97 <=? c) && (c <=? 122))      (* a-z *)
